@@ -330,7 +330,7 @@ func init() {
 // VX_C18_HandlerQPS: per-handler rate limits: of k calls to a limited service
 // method no more than its capacity are handled within one interval, the rest
 // get an error reply; calls to other methods are bounded only by the total
-// limit. args: C (limit of /a), k, total(0 none, else total limit)
+// limit. args: C (limit of /a), k, total(0 none, else total limit)[, push(0 CALLs, 1 PUSHes)]
 func VX_C18_HandlerQPS(args []int) {
 	C, k, total := args[0], args[1], args[2]
 	cfg := LimitConfig{QPSInterval: time.Second, MaxHandlerQPS: []HandlerLimit{{ServiceMethod: "/a", MaxQPS: int32(C)}}}
@@ -344,6 +344,11 @@ func VX_C18_HandlerQPS(args []int) {
 		handled[ctx.ServiceMethod()]++
 		return []byte("ok"), nil
 	})
+	p.SetUnknownPush(func(ctx erpc.UnknownPushCtx) *erpc.Status {
+		handled[ctx.ServiceMethod()]++
+		return nil
+	})
+	push := len(args) > 3 && args[3] == 1
 	conn := newVxConn("srv:1", "cli:2")
 	_, st := p.ServeConn(conn)
 	vxAssume(st.OK())
@@ -352,12 +357,21 @@ func VX_C18_HandlerQPS(args []int) {
 		if vxBool("other") {
 			m = "/b"
 		}
-		conn.feed(vxFrame(erpc.TypeCall, int32(j+1), m, []byte("x")))
+		if push {
+			conn.feed(vxFrame(erpc.TypePush, int32(j+1), m, []byte("x")))
+		} else {
+			conn.feed(vxFrame(erpc.TypeCall, int32(j+1), m, []byte("x")))
+		}
 		vxWaitIdle()
 	}
 	vxAssert(handled["/a"] <= C, "a limited method is handled no more often than its capacity within one interval")
 	if total > 0 {
 		vxAssert(handled["/a"]+handled["/b"] <= total, "all methods together stay within the total capacity")
+	}
+	if push {
+		vxAssert(conn.nWrites() == 0, "[C03] pushes are not answered")
+		vxCover("c18.handler-qps")
+		return
 	}
 	vxAssert(conn.nWrites() == k, "[C03] every CALL is answered")
 	okN := 0
